@@ -137,7 +137,7 @@ def check(case, ctx):
         path = os.path.join(tmp, "f.g2o")
         with open(path, "w", newline="") as f:
             f.write(text)
-        g, logs = load_with_log(gs.Graph.from_g2o, path, custom_edge_types=list(GT.CUSTOM_TYPES))
+        g, logs = load_with_log(gs.Graph.from_g2o, path, custom_edge_types=list(GT.CUSTOM_TYPES_WITH_PARTIAL_CLAIM))
 
         # ---- vertices: one per line, in file order, exact numbers
         if len(g._vertices) != len(exp_v):
@@ -180,8 +180,12 @@ def check(case, ctx):
             return ctx.fail("object-count", "%d edges loaded, %d edge lines" % (len(g._edges), len(exp_e)))
         for i, (e, r) in enumerate(zip(g._edges, exp_e)):
             et = r["et"]
-            if type(e).__name__ != ETYPE[et]:
-                return ctx.fail("type-mismatch", "edge #%d is %s for line %s" % (i, type(e).__name__, et))
+            want_type = ETYPE[et]
+            if et == "EDGE_SE2" and GT.claims_se2_line(r["ids"][0], r["ids"][1]):
+                want_type = "EdgeVfLoopSE2"  # claimed by the registered partial-claim custom type, wherever the line stands in the file
+                ctx.event("line-claimed-by-partial-custom-type")
+            if type(e).__name__ != want_type:
+                return ctx.fail("type-mismatch", "edge #%d is %s for line %s %r, expected %s" % (i, type(e).__name__, et, list(r["ids"]), want_type))
             if list(e.vertex_ids) != list(r["ids"]) or [v.id for v in e.vertices] != list(r["ids"]):
                 return ctx.fail("id-mismatch", "edge #%d ids %r / bound %r, file %r" % (i, e.vertex_ids, [v.id for v in e.vertices], r["ids"]))
             info = np.asarray(e.information, dtype=float)
@@ -238,7 +242,7 @@ def check(case, ctx):
             path2 = os.path.join(tmp, "clean.g2o")
             with open(path2, "w", newline="") as f:
                 f.write(GT.file_text(case, only_recognised=True))
-            g2, logs2 = load_with_log(gs.Graph.from_g2o, path2, custom_edge_types=list(GT.CUSTOM_TYPES))
+            g2, logs2 = load_with_log(gs.Graph.from_g2o, path2, custom_edge_types=list(GT.CUSTOM_TYPES_WITH_PARTIAL_CLAIM))
             if graph_bits(g2) != base_bits:
                 return ctx.fail("junk-affects-other-lines", "removing junk/blank lines changed the loaded graph")
             if [r for r in logs2 if r.levelno >= logging.WARNING]:
@@ -250,9 +254,13 @@ def check(case, ctx):
             np.asarray(e.information)[...] = np.asarray(e.information) * 0.01 - 1.0
             if isinstance(e.estimate, np.ndarray):
                 np.asarray(e.estimate)[...] = np.asarray(e.estimate) * 0.5 + 2.0
+            off = getattr(e, "offset", None)
+            if isinstance(off, np.ndarray):
+                # also the sensor offsets (the identity offset of an EDGE_SE2_XY edge included)
+                np.asarray(off)[...] = np.asarray(off) * 0.5 + 0.25
         for v in g._vertices:
             np.asarray(v.pose)[...] = np.asarray(v.pose) * 0.5 + 2.0
-        gr, _ = load_with_log(gs.Graph.from_g2o, path, custom_edge_types=list(GT.CUSTOM_TYPES))
+        gr, _ = load_with_log(gs.Graph.from_g2o, path, custom_edge_types=list(GT.CUSTOM_TYPES_WITH_PARTIAL_CLAIM))
         if graph_bits(gr) != base_bits:
             return ctx.fail("reload-differs-after-in-place-edit", "modifying the first loaded graph in place changed what a second load of the same file returns")
         seen = {}
@@ -261,6 +269,13 @@ def check(case, ctx):
             if key in seen:
                 return ctx.fail("loaded-objects-shared", "edges #%d and #%d share one information array" % (seen[key], i))
             seen[key] = i
+        # EDGE_SE2_XY lines carry no parameter id: each such edge owns its (identity) offset; editing one leaves the others alone
+        xy = [e for e in gr._edges if isinstance(e, gs.EdgeLandmark) and isinstance(e.offset, gs.PoseSE2)]
+        if len(xy) >= 2:
+            before_others = [gs.bits(e.offset) for e in xy[1:]]
+            np.asarray(xy[0].offset)[...] = [0.25, -0.5, 0.125]
+            if [gs.bits(e.offset) for e in xy[1:]] != before_others:
+                return ctx.fail("loaded-objects-shared", "editing the offset of one loaded EDGE_SE2_XY edge in place changed the offset of another one")
 
         # ---- all loader entry points behave identically (the wrappers take no custom edge types)
         g0, logs0 = load_with_log(gs.Graph.from_g2o, path)
@@ -275,7 +290,7 @@ def check(case, ctx):
             mi = [rec.getMessage() for rec in logsi if rec.levelno >= logging.WARNING]
             if mi != m0:
                 return ctx.fail("loader-entry-points-differ", "%s emits different warnings than Graph.from_g2o" % name)
-        if not any(r["kind"] == "edge" and r["et"].startswith("EDGE_VF") for r in recs):
+        if not any(r["kind"] == "edge" and (r["et"].startswith("EDGE_VF") or (r["et"] == "EDGE_SE2" and GT.claims_se2_line(r["ids"][0], r["ids"][1]))) for r in recs):
             if b0 != base_bits:
                 return ctx.fail("loader-entry-points-differ", "custom_edge_types=[...] changes how a file without custom lines is loaded")
     finally:
